@@ -65,9 +65,9 @@ claim("C13",
   "guard class (float_token, string/int/bool lenient, default_dq, nonfinite crash, uuid raw, union_first_match, enum_default_dq). float()/isoparse/UUID are record fields (explicit premises, no axioms). "
   "Defaults that travel: ref_default_revalidated / ref_default_not_dropped / ref_default_sound / ref_default_complete on RefDefault.v (model of _property_from_ref: the default declared next to a $ref or a "
   "single-$ref allOf/oneOf/anyOf wrapper is convert_value of the REFERENCED kind on the raw value, a non-null value such as 0, 0.0, false or the empty string is never dropped - conv_ok_none) and merge_default_reconverted / "
-  "merge_last_default_wins / merge_last_default_sound on Merge.common (model of _merge_common_attributes: every override default is re-converted by the final narrower kind or the merge is an error; a stored Value is never reused). "
+  "merge_last_default_wins / merge_last_default_sound on Merge.common (model of _merge_common_attributes: every override default is re-converted by the final narrower kind or the merge is an error; a stored Value is never reused); nullable_default_carried / nullable_default_not_dropped on RefDefault.nullable_enum_default (the oneOf[null, enum] rewrite of an enum with a null member carries the outer default, in both enum styles). "
   "The model is tied to the code by evaluating Values.convert_value inside Coq on ~8.5k (kind, value) cases per quick run against the real classes (direct convert_value and property_from_data with `default`), the "
-  "oracle record being instantiated from the real float()/isoparse/UUID results; stage B also covers defaults next to references (every falsy and ill-typed falsy value) and merge_properties on same-class / narrowing pairs (vs Merge.merge); stage C generates documents with defaults in model properties and query/header/cookie parameters (inline, behind single-$ref wrappers, and composed through allOf[$ref Base, $ref Ext] in both orders), executes the generated code in a fresh "
+  "oracle record being instantiated from the real float()/isoparse/UUID results; stage B also covers defaults next to references (every falsy and ill-typed falsy value) and merge_properties on same-class / narrowing pairs (vs Merge.merge); stage C generates documents with defaults in model properties and query/header/cookie parameters (inline, behind single-$ref wrappers, composed through allOf[$ref Base, $ref Ext] in both orders, on enums with a null member in both enum styles, and on two enum sites that share one class name with equal values and different / invalid defaults), executes the generated code in a fresh "
   "interpreter (attribute after no-arg construction, to_dict, inspect.signature defaults) and classifies every deviation by the Coq guard into listed findings or VIOLATION.",
   "Trusted: Coq kernel+vm_compute; the oracles float()/str(float)/isoparse/UUID (only their tabulated results and the token class of str(float), sampled each run); the model's string-literal lexer does not decode "
   "\\x/\\u escapes, so defaults that are not repr-printable (class 9) and list/dict defaults of Any are covered by correspondence+oracle only; the stale first-member default of an enum/enum merge that switches class is the listed finding merge_enum_default_stale_class.",
@@ -145,6 +145,8 @@ claim("C12",
   "bodies.py) is order independent (sticky_order_independent), last-registration-wins is not (overwrite_refuted) except when all uses agree (overwrite_order_independent_if_consistent), and registrations_safe on the regenerated "
   "table of registration sites (first-only / compatibility-checked / sticky; anything else fails stage A); the _process_models loop WITH its recursive-allOf test (process_rec): with the exact test the processed set is still the "
   "least fixed point (process_rec_sound/complete, rec_exact_order_independent), a suffix-style test is order dependent (rec_sloppy_refuted), and recursion_test_is_exact on the regenerated shape fact (the test compares with \"/\"+class name); "
+  "failed attempts of the fix-point leave no trace: failed_attempt_no_trace on the model, registries_are_persistent on the regenerated fact (no in-place insertion into classes_by_name/classes_by_reference/models_to_process), "
+  "and the correspondence compares those registries of the real Schemas object before/after every failed update_schemas_with_data/process_model (dependencies may only grow); "
   "dict views of attributes iterated by templates (enum.values.items()) are table sites too: str_enum sorts (dictsort), int_enum does not (known finding int_enum_twin_order). Correspondence: Coq sort models vs the real Jinja filter/sorted() on random lists, and for every generated module the lines "
   "written by each loop site == Order.emit (sorted flag from the regenerated table) of the set in the generating process's own enumeration order. Oracle: byte comparison of whole trees generated in fresh interpreters "
   "across PYTHONHASHSEEDs and across permutations of components.schemas / paths / operations inside a path item (diagnostic-free documents; documents share models as multipart/json/form bodies and responses across operations, "
